@@ -174,7 +174,7 @@ AGGS1 = ["all", "any", "min", "max", "sorted", "nlargest", "nsmallest", "reduce"
 
 def jobs(tier):
     q = tier == "quick"
-    T = 150 if q else 900
+    T = 300 if q else 900
     J = []
     NF = 7
 
